@@ -1,22 +1,24 @@
 #!/bin/bash
-# run_seeded.sh [tier] [name-filter]: apply every kept seeded change to /repo in turn, run the quick
+# run_seeded.sh [tier] [name-filter]: apply every kept seeded change to /repo (or to the scratch
+# worktree named by MUT_REPO, which must be at /repo's HEAD) in turn, run the quick
 # (or given) check of its property, undo it, and write seeded/RESULTS.tsv.
 TIER=${1:-quick}; FILTER=${2:-}
-cd /repo || exit 9
-if ! git diff --quiet; then echo "/repo has uncommitted changes; refusing"; exit 9; fi
+R=${MUT_REPO:-/repo}; [ -n "${MUT_REPO:-}" ] && export VERIF_REPO=$MUT_REPO
+cd $R || exit 9
+if ! git diff --quiet; then echo "$R has uncommitted changes; refusing"; exit 9; fi
 OUT=/verif/seeded/RESULTS.tsv
 [ -z "$FILTER" ] && printf "seeded change\tproperty\ttier\tapplies\tcheck exit\tfirst signature\n" > $OUT
 for d in /verif/seeded/*/; do
   n=$(basename $d); [ -n "$FILTER" ] && [[ "$n" != *$FILTER* ]] && continue
   p=$(jq -r .property $d/meta.json)
-  if ! git -C /repo apply --check $d/patch.diff 2>/dev/null; then
-     if ! (cd /repo && patch -p1 --dry-run -F3 -s < $d/patch.diff >/dev/null 2>&1); then printf "%s\t%s\t%s\tNO\t-\t-\n" $n $p $TIER >> $OUT; continue; fi
-     (cd /repo && patch -p1 -F3 -s < $d/patch.diff)
+  if ! git -C $R apply --check $d/patch.diff 2>/dev/null; then
+     if ! (cd $R && patch -p1 --dry-run -F3 -s < $d/patch.diff >/dev/null 2>&1); then printf "%s\t%s\t%s\tNO\t-\t-\n" $n $p $TIER >> $OUT; continue; fi
+     (cd $R && patch -p1 -F3 -s < $d/patch.diff)
   else
-     git -C /repo apply $d/patch.diff
+     git -C $R apply $d/patch.diff
   fi
   (cd /verif && ./check $p --tier $TIER > /tmp/seeded_$n.log 2>&1); rc=$?
-  git -C /repo checkout -- . ; git -C /repo clean -fdq -- packages examples; find /repo -name "*.orig" -newer $d/meta.json -delete 2>/dev/null
+  git -C $R checkout -- . ; git -C $R clean -fdq -- packages examples; find $R -name "*.orig" -newer $d/meta.json -delete 2>/dev/null
   sig=$(grep -m1 "signature" /tmp/seeded_$n.log | sed 's/^ *signature //' | cut -d: -f1)
   printf "%s\t%s\t%s\tyes\t%s\t%s\n" $n $p $TIER $rc "$sig" >> $OUT
 done
